@@ -68,7 +68,9 @@ def gen_case(rng):
     kills = []
     for _ in range(nk):
         kills.append({"call": rng.randrange(ncalls), "when": rng.choice(["during", "during", "during", "before", "after"]),
-                      "kind": rng.choice(KINDS), "nth": rng.choice([1, 1, 2, 2, 3, 4, 5, 7, 9]), "delay": rng.choice([0.0, 0.001, 0.02, 0.2])})
+                      "kind": rng.choice(KINDS), "nth": rng.choice([1, 1, 2, 2, 3, 4, 5, 7, 9]), "delay": rng.choice([0.0, 0.001, 0.02, 0.2]),
+                      # how the victim dies decides its exit code only: SIGKILL, SIGTERM, SIGSEGV, real-time signals, os._exit(n)
+                      "code": rng.choice([-9, -9, -9, -15, -11, -37, -62, 1, 3, 255])})
     return {"n_jobs": n_jobs, "batch_size": rng.choice([1, 1, 2, "auto"]), "managed": rng.random() < 0.5, "calls": calls,
             "kills": kills, "strategy": dict(rng.choice(ds.STRATEGIES), **{"p_jump": 0.0}), "sched_seed": rng.randrange(1 << 31)}
 
@@ -235,11 +237,11 @@ def run_case(case):
                 pending = sum(1 for c in out["calls"] if c.get("running"))
                 out["kills"].append({"pid": victim.pid, "where": label, "t": round(s_.now, 4), "during_call": out.get("cur"),
                                      "kind": k["kind"]})
-                sp.kill_proc(victim, -9, label)
+                sp.kill_proc(victim, k.get("code", -9), label)
     s.hooks.append(hook)
 
     def arm(k):
-        armed.append({"kind": k["kind"], "nth": k["nth"] * (40 if k["kind"] == "global" else 1), "pick": k["nth"],
+        armed.append({"kind": k["kind"], "nth": k["nth"] * (40 if k["kind"] == "global" else 1), "pick": k["nth"], "code": k.get("code", -9),
                       "not_before": s.now + k["delay"]})
 
     def kill_idle(k):
@@ -249,7 +251,7 @@ def run_case(case):
             victim = alive[k["nth"] % len(alive)]
             label = sp.where_is(victim)
             out["kills"].append({"pid": victim.pid, "where": label, "t": round(s.now, 4), "during_call": None, "kind": "idle"})
-            sp.kill_proc(victim, -9, label)
+            sp.kill_proc(victim, k.get("code", -9), label)
         s.sleep(k["delay"])
 
     def main():
